@@ -1,13 +1,13 @@
 CONSTANTS
-  AnyOrder = FALSE
+  AnyOrder = TRUE
   MinItems = 0
-  NC = 1
-  L = 6
+  NC = 3
+  L = 2
   MaxItems = 3
-  MaxPerChrom = 3
-  Vals = {1, 2}
-  IPS = {1, 2}
-  ZoomLists = "b"
+  MaxPerChrom = 1
+  Vals = {1, 3}
+  IPS = {1}
+  ZoomLists = "c"
 INIT Init
 NEXT Next
 INVARIANTS MechRoundTrip MechZoom Emit
